@@ -291,8 +291,9 @@ def run(ctx):
                        'U+0085 / U+2028 names and values, escapes, precision dictionaries, null values, shuffled key order) '
                        'with unknown kinds and # keys mixed in, and discovered sets; 1-3 write/load cycles; verdicts on '
                        'generated data via dict, path and re-serialised text')
-    ctx.assumptions += ['json.dumps/json.loads and the text of numbers/dates are exercised, not modelled; the Coq model '
-                        'covers which keys survive loading and the order they are written in']
+    ctx.assumptions += ['the text of a .tdda file is modelled (Constraints/Json.v printer, strip_lines, strict parser) and compared '
+                        'with CPython json on every written text; the VALUE of a number token (int()/float()/repr) and the text of '
+                        'dates (str(datetime), get_date) are CPython\'s and tdda\'s, exercised here, not modelled']
 
 
 # ---------------------------------------------------------------- the TEXT layer: Constraints/Json.v vs CPython json
@@ -436,6 +437,15 @@ def json_layer(ctx, written):
         ctx.bump('json.print')
         if dstr(mo) != t:
             ctx.mismatch('json text written', case, first_diff(t, dstr(mo)), first_diff(dstr(mo), t))
+    # ---- the hypothesis of the round-trip theorems (C09_text_is_valid_json ...): every value written is well-formed
+    outs = ctx.model.call_many(34, [jv_enc(d) for _, d, _ in vals])
+    nwf = 0
+    for (case, d, t), mo in zip(vals, outs):
+        if mo != 1:
+            nwf += 1
+            ctx.mismatch('round-trip theorem hypothesis (wfb)', case, 'wfb = false', 'a value json.dumps wrote')
+    ctx.extra['wf_hypothesis_checked'] = len(vals)
+    ctx.extra['wf_hypothesis_failed'] = nwf
     # ---- parsing: the model reads every written text, and damaged / hand-written variants, as json.loads does
     texts = []
     for case, d, t in vals:
